@@ -67,7 +67,13 @@ def lifecycle_case(r, max_clients=3):
             if a < 0.25:
                 g.ops.append("clisend %d %d %d %d %d" % (j, r.randrange(64), r.randrange(4), pick_len(r, ccfg[j]["mps"]), g.k)); g.k += 1
             elif a < 0.30:
-                g.ops.append("clidisc %d %d" % (j, r.randrange(2)))
+                mode = r.randrange(2)
+                if mode == 0 and r.random() < 0.5:
+                    # the last things queued before a flushing disconnect: empty Reliable packets (end-of-stream
+                    # markers), which weigh nothing in the send buffer but must still be delivered first
+                    for _ in range(r.choice([1, 1, 2, 3])):
+                        g.ops.append("clisend %d %d 3 0 %d" % (j, r.randrange(64), g.k)); g.k += 1
+                g.ops.append("clidisc %d %d" % (j, mode))
             elif a < 0.36:
                 g.ops.append("cliflush %d" % j)
             g.ops.append("clistep %d %d" % (j, now))
